@@ -44,7 +44,13 @@ type Query implements Named {
   big(x: Int64, y: Float64, t: Time, id: ID): String
   hidden: String
   private: Int
+  la: LA
+  lb: LB
+  listers: [Lister]
 }
+interface Lister { items(first: Int): String sub: Lister }
+type LA implements Lister { items(after: String, first: Int, tags: [String!] = ["t"]): String sub: LA }
+type LB implements Lister { items(first: Int): String sub: LB }
 type Mutation { set(s: String!): Query }
 type Subscription { watch(id: String): Query }
 directive @mark(x: Int = 1, l: [String]) on FIELD | QUERY | FRAGMENT_SPREAD | INLINE_FRAGMENT | FRAGMENT_DEFINITION | VARIABLE_DEFINITION | MUTATION | SUBSCRIPTION
@@ -61,6 +67,9 @@ type RQ struct {
 	Any  interface{}
 	Anys []interface{}
 	Strs []string
+	La      *RLA
+	Lb      *RLB
+	Listers []interface{}
 	// Go fields a GraphQL field name matches without regard to case but that are not exported
 	hidden  string
 	Private int
@@ -88,6 +97,15 @@ func (q *RQ) Fail(s string) (string, error) {
 }
 func (q *RQ) Big(x int64, y float64, t string, id string) string { return "big" }
 
+// RLA and RLB implement the Lister interface with different argument lists.
+type RLA struct{ Sub *RLA }
+type RLB struct{ Sub *RLB }
+
+func (l *RLA) Items(after interface{}, first interface{}, tags interface{}) string {
+	return fmt.Sprint("la", after, first, tags)
+}
+func (l *RLB) Items(first interface{}) string { return fmt.Sprint("lb", first) }
+
 type RM struct{}
 
 func (m *RM) Set(s string) *RQ { return newRQ(1) }
@@ -104,6 +122,9 @@ func newRQ(depth int) *RQ {
 		q.Objs = []*RQ{newRQ(depth - 1), nil}
 		q.Any = &ROther{Str: "o", Num: 2}
 		q.Anys = []interface{}{newRQ(0), &ROther{Str: "o2"}}
+		q.La = &RLA{Sub: &RLA{}}
+		q.Lb = &RLB{Sub: &RLB{}}
+		q.Listers = []interface{}{&RLA{}, &RLB{}, &RLA{}}
 	}
 	return q
 }
@@ -114,6 +135,15 @@ type resNode struct{ depth int }
 
 func (n *resNode) Resolve(field *ggql.Field, args map[string]interface{}) (interface{}, error) {
 	switch field.Name {
+	case "la", "lb", "sub":
+		if n.depth > 6 {
+			return nil, nil
+		}
+		return &resNode{depth: n.depth + 1}, nil
+	case "listers":
+		return []interface{}{&resNode{depth: n.depth + 1}, &resNode{depth: n.depth + 1}}, nil
+	case "items":
+		return fmt.Sprint(field.Name, len(args)), nil
 	case "query", "mutation", "set", "obj", "named", "any":
 		if n.depth > 6 {
 			return nil, nil
@@ -163,7 +193,7 @@ func (anyRoot) Resolve(obj interface{}, field *ggql.Field, args map[string]inter
 			return v, nil
 		}
 		switch field.Name {
-		case "echo", "pick", "inp", "big", "fail":
+		case "echo", "pick", "inp", "big", "fail", "items":
 			return fmt.Sprint(len(args)), nil
 		case "add", "sum":
 			return 1, nil
@@ -193,6 +223,10 @@ func newAnyData(depth int) anyData {
 		d["query"] = newAnyData(depth - 1)
 		d["mutation"] = newAnyData(depth - 1)
 		d["set"] = newAnyData(depth - 1)
+		d["la"] = newAnyData(depth - 1)
+		d["lb"] = newAnyData(depth - 1)
+		d["sub"] = newAnyData(depth - 1)
+		d["listers"] = []anyData{newAnyData(depth - 1), newAnyData(depth - 1)}
 	}
 	return d
 }
@@ -209,6 +243,8 @@ func NewRoots() (map[string]*ggql.Root, error) {
 	}
 	_ = r.RegisterType(&RQ{}, "Query")
 	_ = r.RegisterType(&ROther{}, "Other")
+	_ = r.RegisterType(&RLA{}, "LA")
+	_ = r.RegisterType(&RLB{}, "LB")
 	roots["reflection"] = r
 	r = ggql.NewRoot(&resNode{})
 	if err := r.ParseString(crashSDL); err != nil {
